@@ -203,10 +203,22 @@ class Module:
             for v in node.values:
                 if isinstance(v, ast.Constant):
                     parts.append(str(v.value))
+                elif isinstance(v, ast.FormattedValue) and v.format_spec is None and v.conversion == -1:
+                    env = getattr(self, '_lit_env', None) or {}
+                    if isinstance(v.value, ast.Name) and v.value.id in env:
+                        inner = env[v.value.id]
+                    else:
+                        inner = self.lit(v.value, None, depth + 1)
+                    if isinstance(inner, (str, int)) and not isinstance(inner, bool):
+                        parts.append(str(inner))
+                    else:
+                        return Opaque(node)
                 else:
                     return Opaque(node)
             return ''.join(parts)
         if isinstance(node, ast.Name):
+            if node.id in (getattr(self, '_lit_env', None) or {}):
+                return self._lit_env[node.id]
             if node.id in self.assigns and len(self.assigns[node.id]) == 1:
                 return self.lit(self.assigns[node.id][0], node.id, depth + 1)
             if node.id in self.imports:
@@ -239,6 +251,20 @@ class Module:
                 if isinstance(pat, str) and isinstance(flags, int):
                     return Regex(pat, flags, name)
                 return Opaque(node)
+            if isinstance(fn, ast.Name) and fn.id in self.funcs and not node.keywords and depth < 6:
+                # a module-level factory whose body is a single `return <expr>` (e.g. a helper that compiles a statement regex): inline it with constant arguments
+                f = self.funcs[fn.id]
+                body = [s for s in f.body if not (isinstance(s, ast.Expr) and isinstance(s.value, ast.Constant))]
+                params = [a.arg for a in f.args.args]
+                if len(body) == 1 and isinstance(body[0], ast.Return) and body[0].value is not None and len(params) == len(node.args):
+                    vals = [self.lit(a, None, depth + 1) for a in node.args]
+                    if all(isinstance(v, (str, int)) for v in vals):
+                        old_env = getattr(self, '_lit_env', None)
+                        self._lit_env = dict(zip(params, vals))
+                        try:
+                            return self.lit(body[0].value, name, depth + 1)
+                        finally:
+                            self._lit_env = old_env
             if isinstance(fn, ast.Name) and fn.id == 'parse_schema_markdown' and node.args:
                 txt = self.lit(node.args[0], None, depth + 1)
                 if isinstance(txt, str):
@@ -247,13 +273,30 @@ class Module:
         return Opaque(node)
 
     def regexes(self):
-        """All module-level regex constants, in source order: name -> Regex."""
+        """All module-level regex constants, in source order: name -> Regex.  A regex that the module only ever applies with .match() / .fullmatch()
+        is anchored at the start by the method itself: its pattern is normalised to start with ^ (so `^\\s*if` and `\\s*if` used with match() are the same regex)."""
+        if getattr(self, '_regex_cache', None) is not None:
+            return self._regex_cache
         out = {}
         for name, vals in self.assigns.items():
             if len(vals) == 1:
                 v = self.lit(vals[0], name)
                 if isinstance(v, Regex):
                     out[name] = v
+        uses = {}
+        for n in ast.walk(self.tree):
+            if isinstance(n, ast.Name) and n.id in out and isinstance(n.ctx, ast.Load):
+                par = getattr(n, '_parent', None)
+                if isinstance(par, ast.Attribute) and par.value is n:
+                    uses.setdefault(n.id, set()).add(par.attr)
+                else:
+                    uses.setdefault(n.id, set()).add('<value>')
+        for name, rg in out.items():
+            u = uses.get(name, set())
+            if u and u <= {'match', 'fullmatch'} and not rg.pattern.startswith('^') and not (rg.flags & re.M):
+                out[name] = Regex('^' + rg.pattern, rg.flags, name)
+                out[name].implicit_anchor = True
+        self._regex_cache = out
         return out
 
 
